@@ -52,12 +52,14 @@ Occurs(h, n, i) ==
   /\ i + Len(n) <= Len(h)
   /\ \A j \in 0..Len(n) - 1 : At(h, i + j) = At(n, j)
 
-\* the set of occurrence positions; leftmost / rightmost occurrence or -1
-OccSet(h, n) == {i \in 0..(Len(h) - Len(n)) : Occurs(h, n, i)}
-FindSub(h, n) == LET S == OccSet(h, n) IN IF S = {} THEN -1 ELSE SetMin(S)
-RFindSub(h, n) == LET S == OccSet(h, n) IN IF S = {} THEN -1 ELSE SetMax(S)
+\* the ascending sequence of occurrence positions; leftmost / rightmost occurrence or -1
+OccSeq(h, n) ==
+  LET Test(i) == Occurs(h, n, i) IN
+  SelectSeq([k \in 1..(Len(h) - Len(n) + 1) |-> k - 1], Test)
+FindSub(h, n) == LET q == OccSeq(h, n) IN IF Len(q) = 0 THEN -1 ELSE q[1]
+RFindSub(h, n) == LET q == OccSeq(h, n) IN IF Len(q) = 0 THEN -1 ELSE q[Len(q)]
 
-\* The same two oracles read as scans (MC_SubOracle checks ScanLemma: they coincide). The set form above is the
+\* The same two oracles read as scans (MC_SubOracle checks ScanLemma: they coincide). The sequence form above is the
 \* definition because TLC evaluates it in linear time on the multi-kilobyte haystacks of recorded traces, whereas the
 \* recursion below costs quadratic time there.
 RECURSIVE FindFrom(_, _, _)
@@ -68,25 +70,37 @@ RECURSIVE RFindFrom(_, _, _)
 RFindFrom(h, n, i) ==
   IF i < 0 THEN -1 ELSE IF Occurs(h, n, i) THEN i ELSE RFindFrom(h, n, i - 1)
 
-\* find_iter: repeatedly leftmost occurrence, resume right after its end
-\* (after it + 1 for the empty needle).
+\* find_iter: repeatedly leftmost occurrence, resume right after its end (after it + 1 for the empty needle):
+\* one ascending walk over the occurrence sequence, taking every occurrence that starts at or after `pos`.
+RECURSIVE GreedyWalk(_, _, _, _)
+GreedyWalk(q, k, pos, step) ==
+  IF k > Len(q) THEN <<>>
+  ELSE IF q[k] >= pos THEN <<q[k]>> \o GreedyWalk(q, k + 1, q[k] + step, step)
+  ELSE GreedyWalk(q, k + 1, pos, step)
+GreedyFwd(h, n) == GreedyWalk(OccSeq(h, n), 1, 0, Max2(Len(n), 1))
+
+\* rfind_iter: repeatedly rightmost occurrence inside h[..lim], continue with lim = match start (one less for a match
+\* at lim itself, i.e. the empty needle): one descending walk over the occurrence sequence.
+RECURSIVE GreedyWalkRev(_, _, _, _)
+GreedyWalkRev(q, k, lim, nl) ==
+  IF k < 1 \/ lim < 0 THEN <<>>
+  ELSE IF q[k] + nl <= lim THEN <<q[k]>> \o GreedyWalkRev(q, k - 1, IF q[k] = lim THEN lim - 1 ELSE q[k], nl)
+  ELSE GreedyWalkRev(q, k - 1, lim, nl)
+GreedyRev(h, n) == LET q == OccSeq(h, n) IN GreedyWalkRev(q, Len(q), Len(h), Len(n))
+
+\* the same two sequences read as repeated searches on the remaining haystack (ScanLemma of MC_SubOracle)
 RECURSIVE GreedyFwdFrom(_, _, _)
 GreedyFwdFrom(h, n, pos) ==
   IF pos > Len(h) THEN <<>>
-  ELSE LET r == FindSub(Drop(h, pos), n) IN
+  ELSE LET r == FindFrom(Drop(h, pos), n, 0) IN
        IF r < 0 THEN <<>>
        ELSE <<pos + r>> \o GreedyFwdFrom(h, n, pos + r + Max2(Len(n), 1))
-GreedyFwd(h, n) == GreedyFwdFrom(h, n, 0)
-
-\* rfind_iter: repeatedly rightmost occurrence in h[..pos], continue with
-\* pos = match start (one less for a match at pos itself, i.e. empty needle).
 RECURSIVE GreedyRevFrom(_, _, _)
 GreedyRevFrom(h, n, pos) ==
   IF pos < 0 THEN <<>>
-  ELSE LET r == RFindSub(Take(h, pos), n) IN
+  ELSE LET r == RFindFrom(Take(h, pos), n, pos - Len(n)) IN
        IF r < 0 THEN <<>>
        ELSE <<r>> \o GreedyRevFrom(h, n, IF r = pos THEN pos - 1 ELSE r)
-GreedyRev(h, n) == GreedyRevFrom(h, n, Len(h))
 
 IsEqualSeq(x, y) == x = y
 IsPrefixSeq(h, n) == Len(n) <= Len(h) /\ Take(h, Len(n)) = n
